@@ -204,6 +204,11 @@ fn run(s: &[i128]) -> Vec<i128> {
             let (op, a, b) = (c[0], c[1], c[2]);
             let mut r: i128 = -1;
             let mut val: i128 = -1;
+            // cancel mode, "the inner call is dropped AT the deadline": the poll that answers Timeout must already
+            // have dropped the inner call when it returns. An inner call that is still alive at that moment and
+            // only disappears during the settle that follows (handed to a spawned clean-up task, say) is reported
+            // as still running (digit 1) for this event.
+            let mut alive_at_return: Option<usize> = None;
             if op != 3 && op != 6 && (a < 0 || a as usize >= n) {
                 continue;
             }
@@ -230,6 +235,12 @@ fn run(s: &[i128]) -> Vec<i128> {
                                     Err(TimeLimiterError::Timeout) => 3,
                                 }
                             };
+                            if r == 3 && cancel
+                                && !sh.dropped.lock().unwrap().contains(&a)
+                                && !sh.finished.lock().unwrap().contains(&a)
+                            {
+                                alive_at_return = Some(i);
+                            }
                         }
                     } else if op == 2 {
                         m.drop_fut();
@@ -261,7 +272,7 @@ fn run(s: &[i128]) -> Vec<i128> {
             let mut vec: i128 = 0;
             for j in 0..n {
                 let code: i128 = if fin.contains(&(j as i128)) { 2 }
-                    else if drp.contains(&(j as i128)) { 3 }
+                    else if drp.contains(&(j as i128)) { if alive_at_return == Some(j) { 1 } else { 3 } }
                     else if started[j] { 1 } else { 0 };
                 vec += code << (2 * j);
             }
